@@ -114,3 +114,29 @@ pub fn synthetic_space() -> u64 {
     4 * 6 * 3 * 13u64.pow(4) * 36
 }
 
+/// Footer family: zones without transitions whose footer rule carries every kind of rule time — whole hours, minutes
+/// and seconds parts, both signs and the range ends of the extended (version 3) form, and the plain 0..=24 h form for
+/// version 2 — once as the start time, once as the end time and once as both, for a northern and a southern rule.
+pub fn footer_zones() -> Vec<(RefZone, u8, V1Block, bool)> {
+    const EXT: [i32; 22] = [-604799, -601200, -90000, -86400, -5400, -3661, -3600, -1800, -61, -1, 0, 1, 61, 1800, 5400, 86399, 86400, 86401, 89999, 90000, 601200, 604799];
+    let mut out = vec![];
+    for &(version, v1, ind) in &[(3u8, V1Block::Slim, false), (3, V1Block::Fat, true), (2, V1Block::Fat, false)] {
+        for south in [false, true] {
+            for &t in &EXT {
+                if version == 2 && !(0..=89999).contains(&t) {
+                    continue;
+                }
+                for (st, et) in [(t, 7200), (7200, t), (t, t)] {
+                    let (std, dst, start, end) = if south {
+                        (RefType { off: 34200, dst: false, abbr: "STD".into() }, RefType { off: 37800, dst: true, abbr: "DST".into() }, RuleDay::M { m: 10, w: 1, d: 0 }, RuleDay::M { m: 3, w: 3, d: 0 })
+                    } else {
+                        (RefType { off: -12600, dst: false, abbr: "STD".into() }, RefType { off: -9000, dst: true, abbr: "DST".into() }, RuleDay::M { m: 3, w: 5, d: 0 }, RuleDay::J1(290))
+                    };
+                    let rule = RefRule { std: std.clone(), dst: Some(RefDst { ty: dst, start, start_time: st, end, end_time: et }) };
+                    out.push((RefZone { trans: vec![], types: vec![std], rule: Some(rule) }, version, v1, ind));
+                }
+            }
+        }
+    }
+    out
+}
